@@ -1,23 +1,17 @@
+use asys::scripts::*;
 use asys::world::*;
 use vcommon::sched::run_one;
 
 fn main() {
-    let l = |s: &str| s.to_string();
-    let script = vec![
-        (0, Step::Link(l("v"))),
-        (0, Step::Sync(l("v"))),
-        (1, Step::Sync(l("m"))),
-        (0, Step::Cmd(l("v"), l("5"))),
-        (0, Step::Cmd(l("c"), l("@act{ops:{@setv(7),@upd{k:1,v:2},@push(3)}}"))),
-        (1, Step::Link(l("nolane"))),
-        (0, Step::Unlink(l("v"))),
-    ];
+    if std::env::var("PROBE_LOG").is_ok() { tracing_subscriber::fmt().with_max_level(tracing::Level::TRACE).without_time().with_target(false).init(); }
+    let script = sequential(&[vec![act(&["@upd{k:1,v:1}", "@upd{k:2,v:2}", "@upd{k:3,v:3}", "@upd{k:4,v:4}"])], vec![sync("m")]]);
     let mut cfg = Cfg::basic(script, 2);
     let args: Vec<String> = std::env::args().collect();
     if args.len() > 1 { cfg.cap = args[1].parse().unwrap(); }
     if args.len() > 2 { cfg.budget = args[2].parse().unwrap(); }
+    if args.len() > 3 && args[3] == "burst" { cfg.mode = Mode::Burst; }
+    if args.len() > 4 { cfg.lane_buf = args[4].parse().unwrap(); }
     let r = run_one::<AsWorld>(&cfg, &[], true).unwrap();
-    for (l, lab) in r.outcome.log.iter().zip(std::iter::repeat(())) { let _ = lab; println!("{}", l); }
+    for l in r.outcome.log.iter() { println!("{}", l); }
     println!("steps {} horizon {}", r.choices.len(), r.horizon_hit);
-    println!("{}", r.labels.join(" "));
 }
